@@ -31,19 +31,19 @@ CLAIMS = {
          "every user mutation/save in confirm.Get and recover.EndPost is gated by decode, size, selector look-up, constant-time verifier compare (and expiry); selector/verifier are cleared with constants and saved; generator and parsers agree on encodings and the split point",
          "hash collision resistance; the per-bit quantifier is reduced to 'full-length constant-time compare'"),
  'C06': ("backward slice of PutPassword arguments, must-pass-through from Save to the revocation event / DelRememberTokens, wiring",
-         "stored password is the Hasher's output of the submitted one; recover-end fires the event remember listens on and propagates its error; UpdatePassword revokes remember tokens; hasher passes the password bytes unmodified to bcrypt",
+         "stored password is the Hasher's output of the submitted one; recover-end fires the event remember listens on and propagates its error; UpdatePassword always saves and revokes remember tokens (no success exit before Save); the revocation handler's subject is the context user only; the default body reader hands secret fields on verbatim; hasher passes the password bytes unmodified to bcrypt",
          "bcrypt semantics"),
  'C07': ("edge-dominance, instruction ordering, must-pass-through to DelCookie, codec offset agreement (linear forms), wiring",
-         "cookie issued only under GetShouldRemember; Authenticate uses, then mints, then writes uid+halfauth+new cookie; unusable cookies are deleted; reader splits where the writer put the separator; oauth2 pass-along params are reset per flow",
+         "cookie issued only under GetShouldRemember; Authenticate uses, then mints, then writes uid+halfauth+new cookie; unusable cookies are deleted; reader splits where the writer put the separator; oauth2 pass-along params are reset per flow; the token is issued for the context user only; logout removes the cookie; password recovery revokes the tokens",
          "atomicity of UseRememberToken under races (integrator)"),
  'C08': ("truth-table enumeration of the middleware decision chain over the SSA CFG, switch-table exhaustiveness, dataflow of the redirect target",
-         "all assignments of requirement/auth bits and LoadCurrentUser outcomes reach exactly the specified outcome call; fail() covers every MWRespondOnFailure constant; redirect target is path(+mount)+?query, query never passes through path cleaning",
+         "all assignments of requirement/auth bits and LoadCurrentUser outcomes reach exactly the specified outcome call; fail() covers every MWRespondOnFailure constant; redirect target is path(+mount)+?query, query never passes through path cleaning; an empty session pid is ErrUserNotFound without a storage look-up; GetSession hands ClientState.Get through unaltered",
          "URL escaping by net/url"),
  'C09': ("must-pass-through on the expired edge, context-value slice, whitelist gate in stateHider, codec/compare structure, event wiring",
-         "expired branch deletes and hides the session (nil PID/user, hider with exact whitelist lookup); live branch refreshes unconditionally; stamp and parse use one layout; every login event is stamped",
+         "expired branch deletes and hides the session (nil PID/user, hider with exact whitelist lookup); live branch refreshes unconditionally; stamp and parse use one layout; every login fires a stamped After event on every completing path; the response writer flushes queued changes before any status/body, for every status",
          "clock arithmetic at the threshold, request sequences"),
  'C10': ("must-pass-through in Logout, method table, key inventory over all packages",
-         "logout deletes all (minus whitelist) + uid/halfauth/last_action + rm cookie unconditionally after the before-event; route registered on exactly the configured method; client-state events are flushed in queue order",
+         "logout deletes all (minus whitelist) + uid/halfauth/last_action + rm cookie unconditionally after the before-event; route registered on exactly the configured method and the default router serves each table only for its own method; library hooks on EventLogout do not depend on a loadable user; client-state events are flushed in queue order",
          "integrator's WriteState honouring DelAll"),
  'C11': ("typestate of ClientStateResponseWriter (hasWritten) by dominance, who-may-write on the event queues, family pairing",
          "flush precedes every underlying write on every path and is guarded by !hasWritten, which is set before any WriteState; only setState appends, to the queue of its own family; queues are delivered unmodified",
@@ -52,28 +52,28 @@ CLAIMS = {
          "OTP / recovery code / SMS code / TOTP last-code consumption is saved (or deleted) before the session is written; the matched OTP is the one removed; at most maxOTPs",
          "that hashes match only issued values"),
  'C13': ("route-table extraction (partial evaluation of Setup), edge-dominance proof gates, session pairing, presence rule",
-         "every enrol/remove/regenerate route is behind the full-auth middleware (and the e-mail wrap when required); enabling/removing is gated by a code check; e-mail authorisation requires a present token and is spent on completion; current user precedes pending PID",
+         "every enrol/remove/regenerate route is behind the full-auth middleware (and the e-mail wrap when required); enabling/removing is gated by a code check; a recovery code cannot stand in for the enrolment code; e-mail authorisation requires a present token and is spent on completion; current user precedes pending PID; Localizef falls back to default texts",
          "possession of the phone"),
  'C14': ("edge-dominance gates, must-pass-through to DelSession(state), slices for state/provider, codec agreement of the PID format",
          "callback requires a present session state equal to the submitted one, spends it before anything else can exit, binds provider and uid; Start stores what it sends; PID parse demands exactly three segments",
          "injectivity for arbitrary uid strings"),
  'C15': ("taint analysis (sources: redirect parameters; sinks: Location/location/RedirectPath) with sanitiser recognition and sibling agreement",
-         "every flow from a client-supplied return target to a redirect sink passes the guard; both redirector modes agree; no handler follows the parameter where its sibling response does not",
+         "every flow from a client-supplied return target to a redirect sink passes the guard; the value sent is the value the guard examined; both redirector modes agree; no handler follows the parameter where its sibling response does not",
          "adequacy of the guard over all URL spellings beyond the known finding"),
  'C16': ("structural equality of response call sites, control-dependence on the secret-dependent flag, no client-visible effect before the veto point",
-         "locked-account answer is produced by one routine with no effect dependent on password correctness; unknown-user and known-user answers are structurally identical call sites",
+         "locked-account answer is produced by one routine with no effect dependent on password correctness; unknown-user and known-user answers are structurally identical call sites; mail delivery errors are not handed back by recover start",
          "byte equality of rendered bodies, timing"),
  'C17': ("interprocedural taint (secrets -> log/storage sinks) with hash sanitisers, recipient binding, whitelist table",
-         "no submitted or generated secret reaches a logger, error text, Put* or storer argument unhashed; mailed tokens go to the user's own addresses; the register whitelist excludes the password",
+         "no submitted or generated secret reaches a logger, error text, Put* or storer argument unhashed; no log call carries a query-bearing part of the URL; the request's shared data object is not written by the mail/response paths; mailed tokens go to the user's own addresses; the register whitelist excludes the password",
          "what integrator Put*/loggers do"),
  'C18': ("error-discipline rule on every backend call (must-pass-through to a nil test), panic-operand slice, save-before-success",
          "every storage/hasher/renderer/sender error is tested or returned before any exit; no panic on a backend error outside the documented middlewares; consumption is saved before the session",
          "behaviour per injected fault value"),
- 'C19': ("edge-dominance gates in register.Post, wiring, whitelist control-dependence, comparison table of Rules.Errors",
-         "Create is gated by validation and hashing, stores the hash, duplicate path has no issuance/storer call; issuance gated by Create nil and register event not handled; confirm's handler always takes over; every rule of every field is evaluated, also for absent fields",
+ 'C19': ("edge-dominance gates in register.Post, wiring, whitelist control-dependence, comparison table of Rules.Errors, decision-tree evaluation of the character classifier",
+         "Create is gated by validation and hashing, stores the hash, duplicate path has no issuance/storer call; issuance gated by Create nil and register event not handled; confirm's handler always takes over; every rule of every field is evaluated, also for absent fields; the character classifier's decision tree agrees with the reference classes on U+0000-U+24FF and samples; the reader hands the password on verbatim",
          "regexp/Unicode class semantics"),
  'C20': ("effect analysis: stores to shared state reachable from request-time entry points (VTA call graph), unsafe-use of non-concurrency-safe objects, go-statement arguments",
-         "no request-time code writes instance-wide or package-level state; shared *rand.Rand is used under a mutex; mailers emit one Write per mail; goroutines receive only immutable data",
+         "no request-time code writes instance-wide or package-level state; non-concurrency-safe objects held by any configured component are used under a mutex; mutable package-level objects are not handed on; pooled objects are fully reset; mailers emit one Write per mail; goroutines receive only immutable data",
          "races inside integrator components or the standard library"),
 }
 
